@@ -1,5 +1,5 @@
 (** C03 — a purchase swaps entitlements atomically; a listing sells at most once. *)
-From FM Require Import Offer CallSeq.
+From FM Require Import Offer CallSeq ReentrantDeep.
 
 (** A successful purchase does both halves in one transition: the listing is re-filed under
     the buyer, closed, with the buyer as its only claimant, and the bucket is re-filed under the
@@ -136,3 +136,19 @@ Proof.
     + vm_compute. reflexivity.
   - reflexivity.
 Qed.
+
+
+(** Claimed once, for good — whatever a hostile token contract does in between, re-entering the
+    marketplace to any depth (model/ReentryDeep.v, [reaction]): a withdrawn bucket id is never
+    paid out again, an exited listing id never exits again. *)
+Theorem C03_withdrawn_bucket_stays_withdrawn_deep : forall k w id o e sender fs,
+  reaction k -> Inv (market w) -> (2 <= brank (market w) id)%nat ->
+  is_ok (execute o e sender fs (RemoveBucket id) (market (k w))) = false.
+Proof. exact withdrawn_bucket_stays_withdrawn_deep. Qed.
+Print Assumptions C03_withdrawn_bucket_stays_withdrawn_deep.
+
+Theorem C03_exited_listing_stays_exited_deep : forall k w id o e sender fs m,
+  reaction k -> Inv (market w) -> (4 <= lrank (market w) id)%nat -> exits_l_b m id = true ->
+  is_ok (execute o e sender fs m (market (k w))) = false.
+Proof. exact exited_listing_stays_exited_deep. Qed.
+Print Assumptions C03_exited_listing_stays_exited_deep.
